@@ -770,6 +770,44 @@ func C11(tier string) int {
 		}
 	})
 	_ = t0
+	// (3) application configurations: every POST scenario with exactly one application hook configured
+	// (wrapped, or as an 'other' override), for every hook; partially configured callback structs
+	// must not crash the handlers either
+	hookNames := []string{"Create", "Update", "Delete", "Follow", "Accept", "Reject", "Add", "Remove", "Like", "Announce", "Undo", "Block"}
+	var cfgJobs []func()
+	nCfg := 0
+	for _, sc := range Corpus() {
+		if sc.Entry != "PostInbox" && sc.Entry != "PostOutbox" && sc.Entry != "Send" {
+			continue
+		}
+		for _, hk := range hookNames {
+			for _, mode := range []ap.CallbackMode{ap.CBWrapped, ap.CBOther} {
+				sc, hk, mode := sc, hk, mode
+				cfgJobs = append(cfgJobs, func() {
+					c := *sc
+					inner := sc.Tweak
+					c.Tweak = func(a *ap.App) {
+						if inner != nil {
+							inner(a)
+						}
+						a.Callbacks, a.CBKeep = mode, hk
+					}
+					c.Name = fmt.Sprintf("%s [only hook: %s, mode %d]", sc.Name, hk, mode)
+					out := c.Exec(mc.NewExec(nil), false)
+					mu.Lock()
+					defer mu.Unlock()
+					nCfg++
+					if out.Panic != nil {
+						res.Violate(panicKey(out.PanicSite, out.PanicLine), fmt.Sprintf("scenario %s: panic %v at %s %s", c.Name, out.Panic, out.PanicSite, out.PanicLine),
+							M{"check": "C11", "part": "configuration", "scenario": sc.Name, "only_hook": hk, "mode": int(mode)})
+					}
+				})
+			}
+		}
+	}
+	parallel(len(cfgJobs), func(i int) { cfgJobs[i]() })
+	res.Evaluations += nCfg
+	res.Extra["single_hook_configurations"] = nCfg
 	if rf := os.Getenv("VERIF_C11_RACE"); rf != "" {
 		b, _ := os.ReadFile(rf)
 		txt := string(b)
@@ -787,7 +825,7 @@ func C11(tier string) int {
 		bound = 2
 	}
 	res.Extra["mutation_bound_completed"] = bound
-	res.Rule = fmt.Sprintf("(1) decoder: every type x every member name (all properties, their Map forms, type, id, @context) x %d junk JSON values x {scalar, list} through decode->encode->decode->encode, plus every example embedded in the vocabulary files with each node mutated by %d operators; (2) handlers: for each of %d scenarios (all entry points), every JSON node of the request body, of every stored / remote document the fault-free run reads and (GetInbox / GetOutbox) of the page the application supplies is, one at a time (thorough: two at a time), removed, nulled, emptied or replaced by a value of another kind (number, bool, array, object without id, unknown type, IRI to a missing / ill-typed / incomplete / unknown-type / garbled / cyclic document), plus whole-document replacements and recursion limits 1,2,4; oracle: no panic, returns within the seam-call horizon; distinct = (target document, path, operator)", len(junk)+1, len(mutOps), len(scs))
+	res.Rule = fmt.Sprintf("(1) decoder: every type x every member name (all properties, their Map forms, type, id, @context) x %d junk JSON values x {scalar, list} through decode->encode->decode->encode, plus every example embedded in the vocabulary files with each node mutated by %d operators; (2) handlers: for each of %d scenarios (all entry points), every JSON node of the request body, of every stored / remote document the fault-free run reads and (GetInbox / GetOutbox) of the page the application supplies is, one at a time (thorough: two at a time), removed, nulled, emptied or replaced by a value of another kind (number, bool, array, object without id, unknown type, IRI to a missing / ill-typed / incomplete / unknown-type / garbled / cyclic document), plus whole-document replacements and recursion limits 1,2,4; (3) every POST / Send scenario with exactly one application hook configured (each of 12 hooks, wrapped or as 'other' override); oracle: no panic, returns within the seam-call horizon; distinct = (target document, path, operator)", len(junk)+1, len(mutOps), len(scs))
 	res.Assumptions = []string{"arbitrary byte strings are replaced by a bounded junk alphabet and grammar-based mutations; coverage-guided fuzzing (sampling) is deliberately not used",
 		"a hang that makes no seam call is caught only by the worker timeout"}
 	return res.Finish()
